@@ -22,6 +22,7 @@ units.UNITS['Clir'] = clunits.gen_clir
 units.UNITS['JitLogic'] = clunits.gen_jitlogic
 units.UNITS['ClAlu'] = clunits.gen_clalu
 units.UNITS['ClJmp'] = clunits.gen_cljmp
+units.UNITS['ClMem'] = clunits.gen_clmem
 
 
 def main():
